@@ -10,6 +10,38 @@ from core import (SVal, TupleVal, LocalDict, FuncVal, ClassVal, ModuleVal, ExcVa
 from state import St, Heap, ALIVE, cls_of
 
 
+_qcache = {}
+_RECFUNCS = {}
+
+
+def has_quantifier(e):
+    key = e.get_id()
+    if key in _qcache:
+        return _qcache[key]
+    seen = set()
+    stack = [e]
+    res = False
+    while stack:
+        x = stack.pop()
+        i = x.get_id()
+        if i in seen:
+            continue
+        seen.add(i)
+        if z3.is_quantifier(x):
+            res = True
+            break
+        if z3.is_app(x) and x.decl().kind() == z3.Z3_OP_RECURSIVE if hasattr(z3, 'Z3_OP_RECURSIVE') else False:
+            res = True
+            break
+        stack.extend(x.children())
+    _qcache[key] = res
+    _keep.append(e)
+    return res
+
+
+_keep = []
+
+
 class Obligation:
     __slots__ = ('name', 'pc', 'goal', 'info', 'kind')
 
@@ -54,13 +86,63 @@ class EngineBase:
         ops._axioms_hook[:] = [self.ax_buffer.append]
         self.prune_timeout = 300
         self.current_fn = None
-        self.recfuncs = {}
+        self.recfuncs = _RECFUNCS     # z3 recursive functions are global to the z3 context
+        self.binders = []
+        self.in_old = 0
+
+    # ------------------------------------------------------------ binders
+    def push_binder(self, bvs):
+        b = {'vars': list(bvs), 'ids': set(v.get_id() for v in bvs), 'facts': []}
+        self.binders.append(b)
+        return b
+
+    def pop_binder(self, b):
+        assert self.binders[-1] is b
+        self.binders.pop()
+        return b['facts']
+
+    def close_binder(self, st, b, guard=None):
+        """Typing facts/axioms collected under a binder are invariants of well-typed
+        values: assume them universally (guarded by the binder's range), not as antecedents."""
+        facts = self.pop_binder(b)
+        if facts:
+            body = z3.And(*facts) if len(facts) > 1 else facts[0]
+            if guard is not None:
+                body = z3.Implies(guard, body)
+            self.route(st, [z3.ForAll(b['vars'], body)])
+
+    def scope_vars(self):
+        out = []
+        for b in self.binders:
+            out += b['vars']
+        return out
+
+    def route(self, st, facts):
+        """Assume facts on the path, except those mentioning a variable bound by an
+        enclosing quantifier/fold: these go into that binder (as its antecedent)."""
+        for f in facts:
+            if f is True:
+                continue
+            if self.binders and not isinstance(f, bool):
+                used = set(v.get_id() for v in z3.z3util.get_vars(f))
+                target = None
+                for b in self.binders:
+                    if used & b['ids']:
+                        target = b
+                if target is not None:
+                    target['facts'].append(f)
+                    continue
+            st.assume(f)
+
+    def tf_assume(self, st, facts):
+        self.route(st, facts)
 
     # ------------------------------------------------------------ obligations
     def flush_axioms(self, st):
         if self.ax_buffer:
-            st.assume(*self.ax_buffer)
+            buf = list(self.ax_buffer)
             del self.ax_buffer[:]
+            self.route(st, buf)
 
     def oblige(self, st, name, goal, info=None):
         """Record an obligation: pc => goal."""
@@ -89,7 +171,10 @@ class EngineBase:
         self.stats['prune_checks'] += 1
         s = z3.Solver()
         s.set('timeout', self.prune_timeout)
-        s.add(*st.pc)
+        s.set('rlimit', 2000000)
+        # pruning uses the quantifier-free part of the path condition only
+        # (weaker => an `unsat` answer is still sound for the full condition)
+        s.add(*[c for c in st.pc if not has_quantifier(c)])
         return s.check() != z3.unsat
 
     def fork(self, st, cond):
@@ -165,7 +250,7 @@ class EngineBase:
             terms.append(z3.Select(arr, ref))
         v = SVal(kind, terms)
         if facts and st is not None:
-            st.assume(*self.type_facts(v, kind, st))
+            self.tf_assume(st, self.type_facts(v, kind, st))
         return v
 
     def write_field(self, st, ref, cname, fname, val):
@@ -200,6 +285,8 @@ class EngineBase:
             ids = [self.class_id(c) for c in self.subclasses(kind.cls)]
             member = z3.Or(*[cls_of(r) == i for i in ids]) if ids else z3.BoolVal(True)
             al = z3.Select(self.alive_arr(st.heap if (st is not None and heap is None) else (heap or {})), r)
+            if self.in_old:
+                al = z3.BoolVal(True)    # under old()/at_loop_entry() values and heap may belong to different states
             if getattr(kind, 'nullable', False):
                 out.append(z3.Or(r == 0, z3.And(r > 0, member, al)))
             else:
@@ -264,5 +351,5 @@ class EngineBase:
     def symbolic(self, st, kind, name):
         v = SVal(kind, [z3.Const('%s_%d' % (name, i), s) if kind.nleaves > 1 else z3.Const(name, s)
                         for i, s in enumerate(kind.sorts())])
-        st.assume(*self.type_facts(v, kind, st))
+        self.tf_assume(st, self.type_facts(v, kind, st))
         return v
